@@ -1189,6 +1189,7 @@ impl<K: AsRef<Key>> SigningContext<K> {
         if let Err(err) = res {
             return Err(ServerError::unsigned(match err {
                 ValidationError::BadTrunc => TsigRcode::BADTRUNC,
+                ValidationError::BadSig => TsigRcode::BADSIG,
                 ValidationError::BadKey => TsigRcode::BADKEY,
                 _ => TsigRcode::FORMERR,
             }));
